@@ -94,7 +94,8 @@ class Cat:
                 proj = i if i is not None else pns
                 models.append((proj, n))
                 projects.add(proj.lower())
-        return dict(integrations=integ, projects=projects, models=models, dns=self.dns)
+        return dict(integrations=integ, projects=projects, models=models,
+                    dns=self.dns.lower() if isinstance(self.dns, str) else self.dns)   # lower-cased like every catalog name (10d49ed)
 
 
 def spec_resolve(sp, parts):
@@ -593,6 +594,10 @@ class QGen:
             self.features.add('sub:case-operand')
             s, _ = self.scalar_sub()
             return 'CASE %s WHEN 1 THEN 10 ELSE 0 END AS k%d' % (s, i), 'aliased'
+        if r < 0.79 and not self.single:
+            self.features.add('sub:function-from-arg')      # f(x FROM <subquery>): Function.from_arg is not visited by the walker
+            s, _ = self.scalar_sub()
+            return 'substring(%s FROM %s) AS h%d' % (c, s, i), 'aliased'
         if r < 0.83:
             self.features.add('sub:function-arg')
             s, _ = self.scalar_sub()
